@@ -79,6 +79,12 @@ package plugin
 //@ pred hs_ok6(c, r, line) := N(line) >= 4 && atoi_ok(P(line, 0)) && atoi_val(P(line, 0)) == 1 && atoi_ok(P(line, 1)) && atoi_val(P(line, 1)) in c.config.VersionedPlugins && hs_addr_ok(r, line) && (exists j :: 0 <= j && j < len(c.config.AllowedProtocols) && c.config.AllowedProtocols[j] == proto_of(line)) && hs_cert_ok(c, line)
 //@ pred nn(x) := ite(x != nil, 1, 0)
 
+//@ pred is_control(k) := k == "PLUGIN_MIN_PORT" || k == "PLUGIN_MAX_PORT" || k == "PLUGIN_PROTOCOL_VERSIONS" || k == "PLUGIN_MULTIPLEX_GRPC" || k == "PLUGIN_CLIENT_CERT" || k == "PLUGIN_UNIX_SOCKET_GROUP" || k == "PLUGIN_UNIX_SOCKET_DIR"
+//@ pred env_ok(c, e, joined) := (!is_control(c.config.MagicCookieKey) ==> eff_has(e, c.config.MagicCookieKey) && eff_val(e, c.config.MagicCookieKey) == c.config.MagicCookieValue) && eff_has(e, "PLUGIN_MIN_PORT") && eff_val(e, "PLUGIN_MIN_PORT") == fmt_d(iface(c.config.MinPort)) && eff_has(e, "PLUGIN_MAX_PORT") && eff_val(e, "PLUGIN_MAX_PORT") == fmt_d(iface(c.config.MaxPort)) && eff_has(e, "PLUGIN_PROTOCOL_VERSIONS") && eff_val(e, "PLUGIN_PROTOCOL_VERSIONS") == joined
+
+//@ pred same_eff(e, e0, k) := (eff_has(e, k) <==> eff_has(e0, k)) && (eff_has(e0, k) ==> eff_val(e, k) == eff_val(e0, k))
+//@ pred own_env(c, cmd0) := c.config.SkipHostEnv && !is_control(c.config.MagicCookieKey) && cmd0 != nil
+
 //@ func (*Client).Start
 //@   nopanic [C01.d] [C03.d] [C14.nopanic] [C05.nopanic]
 //@   bounded always [C01.e]
@@ -86,6 +92,34 @@ package plugin
 //@   requires !held(c.l)
 //@   modifies $START_EFFECTS
 //@   local sel_reached: Bool := false
+//@   loop#1 frame fresh_only
+//@   loop#1 invariant cap(versionStrings) == 0 || fresh(versionStrings)
+//@   loop#1 invariant 0 <= rpos1 && rpos1 <= rn1 && len(versionStrings) == rpos1 && rdom1 == domain(c.config.VersionedPlugins)
+//@   loop#1 invariant forall j :: 0 <= j && j < rpos1 ==> versionStrings[j] == itoa(rkeys1[j])
+//@   at call strings.Join#1 assert arg1 == "," && len(arg0) == rn1 && (forall j :: 0 <= j && j < rn1 ==> arg0[j] == itoa(rkeys1[j]))   [C17.versions] [C02.env]
+//@   after call strings.Join#1 bind joined: Str := ret
+//@   at store exec.Cmd.Env#2 assert env_ok(c, seq(value), joined)   [C17.base]
+//@   at store exec.Cmd.Env#2 assert c.config.GRPCBrokerMultiplex ==> eff_has(seq(value), "PLUGIN_MULTIPLEX_GRPC") && eff_val(seq(value), "PLUGIN_MULTIPLEX_GRPC") == "true"   [C17.mux]
+//@   at call cmdrunner.NewCmdRunner#1 assert env_ok(c, seq(cmd.Env), joined)   [C17.base]
+//@   at call (ClientConfig).RunnerFunc#1 assert env_ok(c, seq(arg1.Env), joined)   [C17.base]
+//@   entry env0 := seq(c.config.Cmd.Env)
+//@   entry cmd0 := c.config.Cmd
+//@   at call cmdrunner.NewCmdRunner#1 assert c.config.GRPCBrokerMultiplex ==> eff_has(seq(cmd.Env), "PLUGIN_MULTIPLEX_GRPC") && eff_val(seq(cmd.Env), "PLUGIN_MULTIPLEX_GRPC") == "true"   [C17.mux]
+//@   at call cmdrunner.NewCmdRunner#1 assert c.config.AutoMTLS ==> eff_has(seq(cmd.Env), "PLUGIN_CLIENT_CERT") && eff_val(seq(cmd.Env), "PLUGIN_CLIENT_CERT") == fmt_s(iface(cpem))   [C17.cert]
+//@   at call cmdrunner.NewCmdRunner#1 assert c.unixSocketCfg.Group != "" ==> eff_has(seq(cmd.Env), "PLUGIN_UNIX_SOCKET_GROUP") && eff_val(seq(cmd.Env), "PLUGIN_UNIX_SOCKET_GROUP") == c.unixSocketCfg.Group   [C17.group]
+//@   at call (ClientConfig).RunnerFunc#1 assert c.config.GRPCBrokerMultiplex ==> eff_has(seq(arg1.Env), "PLUGIN_MULTIPLEX_GRPC") && eff_val(seq(arg1.Env), "PLUGIN_MULTIPLEX_GRPC") == "true"   [C17.mux]
+//@   at call (ClientConfig).RunnerFunc#1 assert c.config.AutoMTLS ==> eff_has(seq(arg1.Env), "PLUGIN_CLIENT_CERT") && eff_val(seq(arg1.Env), "PLUGIN_CLIENT_CERT") == fmt_s(iface(cpem))   [C17.cert]
+//@   at call (ClientConfig).RunnerFunc#1 assert c.unixSocketCfg.Group != "" ==> eff_has(seq(arg1.Env), "PLUGIN_UNIX_SOCKET_GROUP") && eff_val(seq(arg1.Env), "PLUGIN_UNIX_SOCKET_GROUP") == c.unixSocketCfg.Group   [C17.group]
+//@   at call (ClientConfig).RunnerFunc#1 assert eff_has(seq(arg1.Env), "PLUGIN_UNIX_SOCKET_DIR") && eff_val(seq(arg1.Env), "PLUGIN_UNIX_SOCKET_DIR") == arg2 && arg2 == c.unixSocketCfg.socketDir   [C17.dir]
+//@   at store exec.Cmd.Env#2 assert own_env(c, cmd0) ==> same_eff(seq(value), env0, "PLUGIN_CLIENT_CERT") && same_eff(seq(value), env0, "PLUGIN_UNIX_SOCKET_GROUP") && same_eff(seq(value), env0, "PLUGIN_UNIX_SOCKET_DIR") && (!c.config.GRPCBrokerMultiplex ==> same_eff(seq(value), env0, "PLUGIN_MULTIPLEX_GRPC"))   [C17.only]
+//@   at store exec.Cmd.Env#3 assert own_env(c, cmd0) ==> same_eff(seq(value), env0, "PLUGIN_UNIX_SOCKET_GROUP") && same_eff(seq(value), env0, "PLUGIN_UNIX_SOCKET_DIR") && (!c.config.GRPCBrokerMultiplex ==> same_eff(seq(value), env0, "PLUGIN_MULTIPLEX_GRPC"))   [C17.only]
+//@   at store exec.Cmd.Env#4 assert own_env(c, cmd0) ==> same_eff(seq(value), env0, "PLUGIN_UNIX_SOCKET_DIR") && (!c.config.GRPCBrokerMultiplex ==> same_eff(seq(value), env0, "PLUGIN_MULTIPLEX_GRPC")) && (!c.config.AutoMTLS ==> same_eff(seq(value), env0, "PLUGIN_CLIENT_CERT"))   [C17.only]
+//@   at call cmdrunner.NewCmdRunner#1 assert own_env(c, cmd0) ==> same_eff(seq(cmd.Env), env0, "PLUGIN_UNIX_SOCKET_DIR") && (!c.config.GRPCBrokerMultiplex ==> same_eff(seq(cmd.Env), env0, "PLUGIN_MULTIPLEX_GRPC")) && (!c.config.AutoMTLS ==> same_eff(seq(cmd.Env), env0, "PLUGIN_CLIENT_CERT")) && (c.unixSocketCfg.Group == "" ==> same_eff(seq(cmd.Env), env0, "PLUGIN_UNIX_SOCKET_GROUP"))   [C17.only]
+//@   at store exec.Cmd.Env#2 assert !is_control(c.config.MagicCookieKey) && cmd0 != nil ==> same_eff(seq(value), env0, "PLUGIN_CLIENT_CERT") && (!c.config.GRPCBrokerMultiplex ==> same_eff(seq(value), env0, "PLUGIN_MULTIPLEX_GRPC"))   [C17.host]
+//@   at store exec.Cmd.Env#3 assert !is_control(c.config.MagicCookieKey) && cmd0 != nil ==> (!c.config.GRPCBrokerMultiplex ==> same_eff(seq(value), env0, "PLUGIN_MULTIPLEX_GRPC"))   [C17.host]
+//@   at store exec.Cmd.Env#4 assert !is_control(c.config.MagicCookieKey) && cmd0 != nil ==> (!c.config.GRPCBrokerMultiplex ==> same_eff(seq(value), env0, "PLUGIN_MULTIPLEX_GRPC")) && (!c.config.AutoMTLS ==> same_eff(seq(value), env0, "PLUGIN_CLIENT_CERT"))   [C17.host]
+//@   at call cmdrunner.NewCmdRunner#1 assert !is_control(c.config.MagicCookieKey) && cmd0 != nil ==> (!c.config.GRPCBrokerMultiplex ==> same_eff(seq(cmd.Env), env0, "PLUGIN_MULTIPLEX_GRPC")) && (!c.config.AutoMTLS ==> same_eff(seq(cmd.Env), env0, "PLUGIN_CLIENT_CERT"))   [C17.host]
+//@   at call cmdrunner.NewCmdRunner#1 assert c.config.SkipHostEnv && cmd0 != nil ==> (forall k: Str :: eff_has(seq(cmd.Env), k) ==> eff_has(env0, k) || is_control(k) || k == c.config.MagicCookieKey)   [C17.skip]
 //@   local scanning: Bool := false
 //@   at go#3 set scanning := true
 //@   ensures scanning ==> drain_spawned == old(drain_spawned) + 1   [C10.drained] [C03.c]
@@ -128,7 +162,7 @@ package plugin
 //@   ensures a0 == nil && c.config.Reattach == nil && err == nil ==> atoi_ok(P(line, 0)) && atoi_val(P(line, 0)) == 1   [C01.b-core]
 //@   ensures a0 == nil && c.config.Reattach == nil && err == nil ==> atoi_ok(P(line, 1)) && atoi_val(P(line, 1)) in c.config.VersionedPlugins   [C01.b-app]
 //@   ensures a0 == nil && c.config.Reattach == nil && err == nil ==> hs_addr_ok(the_runner, line)   [C01.b-addr]
-//@   ensures a0 == nil && c.config.Reattach == nil && err == nil ==> exists j :: 0 <= j && j < len(c.config.AllowedProtocols) && c.config.AllowedProtocols[j] == proto_of(line)   [C01.b-proto]
+//@   ensures a0 == nil && c.config.Reattach == nil && err == nil ==> exists j :: 0 <= j && j < len(c.config.AllowedProtocols) && c.config.AllowedProtocols[j] == proto_of(line)   [C01.b-proto] [C14.allowed]
 //@   ensures a0 == nil && c.config.Reattach == nil && err == nil ==> hs_cert_ok(c, line)   [C01.b-cert]
 //@   ensures a0 == nil && c.config.Reattach == nil && err == nil ==> hs_mux_ok(c, line)   [C01.b-mux]
 //@   ensures a0 == nil && c.config.Reattach == nil && err == nil ==> c.protocol == proto_of(line) && c.negotiatedVersion == atoi_val(P(line, 1)) && c.config.Plugins == c.config.VersionedPlugins[atoi_val(P(line, 1))]   [C01.c]
@@ -1350,3 +1384,13 @@ package plugin
 //@   ensures result == nil ==> c.config.TLSConfig.RootCAs != nil && fresh(c.config.TLSConfig.RootCAs) && pool_der[c.config.TLSConfig.RootCAs] == bcat(0, b64_val(cert))   [C12.pin]
 //@   ensures result == nil ==> c.config.TLSConfig.ClientCAs == c.config.TLSConfig.RootCAs   [C12.pin]
 //@   ensures result != nil ==> c.config.TLSConfig == nil || (c.config.TLSConfig.RootCAs == old(c.config.TLSConfig.RootCAs) && c.config.TLSConfig.ClientCAs == old(c.config.TLSConfig.ClientCAs))   [C12.pin]
+
+//@ func hostEnv
+//@   nopanic [C17.total]
+//@   nonblocking
+//@   modifies heap_fresh
+//@   loop#1 frame fresh_only
+//@   loop#1 invariant cap(out) == 0 || fresh(out)
+//@   loop#1 invariant !eff_has(seq(out), "PLUGIN_CLIENT_CERT") && !eff_has(seq(out), "PLUGIN_MULTIPLEX_GRPC")
+//@   ensures !eff_has(seq(result), "PLUGIN_CLIENT_CERT") && !eff_has(seq(result), "PLUGIN_MULTIPLEX_GRPC")   [C17.host]
+//@   ensures len(result) == 0 || fresh(result)
